@@ -176,8 +176,11 @@ OpResult exec_op(Context& c, const std::vector<std::string>& t, std::vector<std:
          Model n;
          if (src->m) n.m = ops::copy_mssm(*src->m); else n.t = ops::copy_thdm(*src->t);
          if (raw_bytes(*src) != before) modified.push_back("copy");
+         // a copy is a model in the same state: all getters and the printed text agree with the source
+         const uint64_t gs = getters_of(*src), gn = getters_of(n);
+         if (gs != gn || (n.m ? ops::print_mssm(*n.m) != ops::print_mssm(*src->m) : ops::print_thdm(*n.t) != ops::print_thdm(*src->t))) modified.push_back("copy-differs:copy_state");
          dst.reset(); dst = n;
-         r.bits = getters_of(dst);
+         r.bits = gn;
       } else if (t[0] == "ev" && t.size() >= 4) {
          Model* md = model_ref(2);
          if (!md || md->empty()) { r.skipped = true; return r; }
